@@ -431,6 +431,12 @@ func (s *ProofStructure) VerifyProofStructure(g *gabikeys.PublicKey, p *Proof) b
 			uint(p.VResponses[i].BitLen()) > g.Params.Lm+g.Params.Lh+g.Params.Lstatzk+1 {
 			return false
 		}
+
+		// The C_i serve as bases in the proof relations, so they must be invertible modulo n:
+		// a power of a non-invertible C_i (e.g. zero) would make all relations hold trivially.
+		if new(big.Int).ModInverse(p.Cs[i], g.N) == nil {
+			return false
+		}
 	}
 
 	return true
